@@ -19,9 +19,19 @@ def concretise(c, rnd):
     if f == "chain":
         r = geom.ref_element("rect", c["ref"])
         g = q(c["gap"])
-        second_ref = rnd.choice(["#a", "^"])
-        return (f'<svg>{r}<rect id="a" xy="#r|{c["d1"]} {g}" wh="2 1"/>'
-                f'<rect id="s" xy="{second_ref}|{c["d2"]} {g}" wh="1 3"/></svg>')
+        # the middle element is placed by direction or, equivalently, by the offset of its
+        # centre from the reference's centre; the three elements are written in any order
+        # (a later element referenced by an earlier one is a forward reference)
+        e1 = c["exp1"]
+        rb = c["ref"]
+        ddx = (e1["x1"] + e1["x2"]) / 2 - (rb["x1"] + rb["x2"]) / 2
+        ddy = (e1["y1"] + e1["y2"]) / 2 - (rb["y1"] + rb["y2"]) / 2
+        a_pos = rnd.choice([f'xy="#r|{c["d1"]} {g}"', f'cxy="#r@c {q(ddx)} {q(ddy)}"', f'cxy="#r {q(ddx)} {q(ddy)}"'])
+        els = [r, f'<rect id="a" {a_pos} wh="2 1"/>', None]
+        order = rnd.choice([(0, 1, 2), (0, 1, 2), (2, 1, 0), (1, 0, 2), (2, 0, 1), (0, 2, 1), (1, 2, 0)])
+        second_ref = rnd.choice(["#a", "^"]) if order == (0, 1, 2) else "#a"
+        els[2] = f'<rect id="s" xy="{second_ref}|{c["d2"]} {g}" wh="1 3"/>'
+        return "<svg>" + "".join(els[i] for i in order) + "</svg>"
     if f == "delta":
         k = c["kind"]
         v = (f'{q(c["a1"])} {q(c["a2"])}' if c["mode"] == "abs" else f'{c["a1"]}% {c["a2"]}%')
